@@ -697,6 +697,8 @@ m("C14","report-removes-signer","x/storage/keeper/msg_server_report.go",
 m("C07","plan-loaded-by-payer","x/storage/keeper/msg_server_buy_storage.go",
   'payInfo, found := k.GetStoragePaymentInfo(ctx, forAddress.String())','payInfo, found := k.GetStoragePaymentInfo(ctx, msg.Creator)',"C07/R4","loaded-plan=written-plan","seed C07-plan-loaded-by-payer")
 
+exec(open(os.path.join(os.path.dirname(os.path.abspath(__file__)), 'extra.py')).read())
+
 for x in M:
     d = os.path.join(os.path.dirname(os.path.abspath(__file__)), x["property"])
     os.makedirs(d, exist_ok=True)
